@@ -1,0 +1,8 @@
+//go:build !verif
+
+// Package verifhook provides named yield points for the verification harness.
+// Without the verif build tag they are empty and get inlined away.
+package verifhook
+
+// Point marks a named yield point.
+func Point(name string) {}
